@@ -75,6 +75,12 @@ def make_gridded(world, rates=None, name='simfore'):
     from csep.core.forecasts import GriddedForecast
     region = make_region(world['region'], world['mags'])
     data = numpy.array(world['rates'] if rates is None else rates, dtype=float)
+    # memory layout is a delivery detail: the same logical array may arrive Fortran-ordered or as a transposed view
+    layout = world.get('layout', 'C')
+    if layout == 'F':
+        data = numpy.asfortranarray(data)
+    elif layout == 'T':
+        data = numpy.ascontiguousarray(data.T).T
     fc = GriddedForecast(start_time=utc(world.get('start_ms', gen.T0_MS)).replace(tzinfo=None),
                          end_time=utc(world.get('end_ms', gen.T0_MS + gen.YEAR_MS)).replace(tzinfo=None),
                          data=data, region=region, magnitudes=numpy.array(world['mags']['edges'], dtype=float),
